@@ -29,8 +29,6 @@ def make_worker(tier):
     def work(chunk):
         S = Stats()
         for idx, (label, decls) in chunk:
-            if label == "enum-beyond-i32":
-                continue  # the reflection schema stores enumerator values as i32; larger values are outside C12's scope
             S.count("states")
             text = print_schema(decls)
             inp = {"text": text, "description": decls}
